@@ -249,12 +249,29 @@ pub fn rev_zone_recs() -> Vec<Rec> {
         rec(&n("m"), t::MX, 60, mx_rdata(1, "mx.")),
         rec(&n("m"), t::MX, 60, mx_rdata(2, ".")),
         rec(&n("s"), t::SRV, 60, srv_rdata(1, 2, 3, "arpa.")),
+        // targets that are label-boundary confusers of the apex: one label
+        // holding the apex's whole wire form (so the name ends, octet for
+        // octet, like a name of the zone, yet has two labels only)
+        rec(&n("cf"), t::CNAME, 60, rev_folded_apex(b"x")),
+        rec(&n("mf"), t::MX, 60, [&[0u8, 1][..], &rev_folded_apex(b"y")[..]].concat()),
+        rec(&n("df"), t::NS, 60, rev_folded_apex(b"z")),
     ]
+}
+
+/// `<prefix><wire form of 2.0.192.in-addr.arpa without its root octet>.` as a
+/// single label below the root.
+pub fn rev_folded_apex(prefix: &[u8]) -> Vec<u8> {
+    let apex = wname("2.0.192.in-addr.arpa.");
+    let mut label = prefix.to_vec();
+    label.extend_from_slice(&apex[..apex.len() - 1]);
+    wire::child(&label, &[0])
 }
 
 pub fn rev_names() -> Vec<Vec<u8>> {
     let mut v: Vec<Vec<u8>> = ["2.0.192.in-addr.arpa.", "0.192.in-addr.arpa.", "arpa.", "x."].iter().map(|s| wname(s)).collect();
-    for s in ["0-127", "5.0-127", "a.b.0-127", "128-255", "200.128-255", "ns.128-255", "mixed", "9.mixed", "ns.mixed", "1", "2", "m", "s", "nx"] {
+    v.push(rev_folded_apex(b"x"));
+    v.push(wire::child(b"w", &rev_folded_apex(b"x")));
+    for s in ["0-127", "5.0-127", "a.b.0-127", "128-255", "200.128-255", "ns.128-255", "mixed", "9.mixed", "ns.mixed", "1", "2", "m", "s", "nx", "cf", "mf", "df", "q.df"] {
         v.push(wname(&format!("{s}.2.0.192.in-addr.arpa.")));
     }
     v
